@@ -553,6 +553,51 @@ def padding(repo: Repo, chk: Check) -> None:
         col = [s for s in fl.stmts(ast.Assign) if s.reachable and isinstance(s.node.targets[0], ast.Name) and s.node.targets[0].id in bvars and isinstance(s.node.value, ast.Constant)]
         okc = bool(col) and all(
             s.node.value.value == 1 and has_fact(s, ["$f == StreamerFlag.Reuse"]) and _stride_zero_fact(s, svars) for s in col)
+        # loop variables drawn from the padded sequences by zip: `for flag, b, s in zip(dims, bounds, strides)`
+        zip_kind: dict[str, str] = {}
+        for n_ in ast.walk(f.node):
+            if isinstance(n_, ast.For):
+                t_, it_ = n_.target, n_.iter
+                if isinstance(it_, ast.Call) and callee_name(it_) == "enumerate" and it_.args and isinstance(t_, ast.Tuple) and len(t_.elts) == 2:
+                    t_, it_ = t_.elts[1], it_.args[0]
+                if isinstance(it_, ast.Call) and callee_name(it_) == "zip" and isinstance(t_, ast.Tuple) and len(t_.elts) == len(it_.args):
+                    for tv_, a_ in zip(t_.elts, it_.args):
+                        if isinstance(tv_, ast.Name) and isinstance(a_, ast.Name):
+                            if a_.id in bound_seqs:
+                                zip_kind[tv_.id] = "bounds"
+                            elif a_.id in stride_seqs:
+                                zip_kind[tv_.id] = "strides"
+        if not col:
+            # the collapse spelled as a conditional expression: `1 if <reuse and stride == 0> else <bound>`
+            okc_all: list[bool] = []
+            first_site = None
+            for s in fl.sites:
+                if not s.reachable or s.node is not s.stmt or not isinstance(s.stmt, (ast.Assign, ast.AnnAssign, ast.AugAssign, ast.Expr, ast.Return)):
+                    continue
+                for ie in [x for x in ast.walk(s.stmt) if isinstance(x, ast.IfExp)]:
+                    for const, other, pol in ((ie.body, ie.orelse, True), (ie.orelse, ie.body, False)):
+                        if not isinstance(const, ast.Constant):
+                            continue
+                        src = s.expand(other)
+                        is_bound = norm.contains(src, T("$p.upper_bounds")) or any(isinstance(x, ast.Name) and (x.id in bvars or zip_kind.get(x.id) == "bounds") for x in ast.walk(src))
+                        if not is_bound:
+                            continue
+                        first_site = first_site or s
+                        test_ = s.expand(ie.test)
+                        atoms_ = [norm.canon(a_) for a_ in norm.atoms(test_ if pol else norm.negate(test_), True)]
+                        reuse = any(norm.match(T("$f == StreamerFlag.Reuse"), a_) is not None for a_ in atoms_)
+                        zero = False
+                        for a_ in atoms_:
+                            m_ = norm.any_match(["$e == 0"], a_)
+                            if m_ is not None and (norm.contains(m_["e"], T("$p.temporal_strides")) or any(
+                                    isinstance(x, ast.Name) and (x.id in svars or zip_kind.get(x.id) == "strides") for x in ast.walk(m_["e"]))):
+                                zero = True
+                        okc_all.append(const.value == 1 and reuse and zero)
+            if okc_all:
+                okc = all(okc_all)
+                col = [first_site]
+            else:
+                raise AnalysisError(f"{f.where}: the reuse collapse of a temporal bound was not found in a recognised form")
         chk.result(okc, "C08.padding", f"{f.key}:reuse-collapse", col[0].where() if col else f.where, "a bound is collapsed to 1 only for a Reuse dimension with stride 0",
                    "the reuse collapse `bound = 1` is not guarded by `flag == Reuse and stride == 0`", col[0].fact_texts if col else [])
         # inside loops over the streamer's temporal dimensions only padded sequences are indexed
@@ -564,6 +609,17 @@ def padding(repo: Repo, chk: Check) -> None:
                 continue
             n_idx += 1
             oki = oki and seq in pads
+        for n_ in ast.walk(f.node):
+            # `zip(streamer.temporal_dims, bounds, strides)` reads the sequences position by position, like indexing
+            if isinstance(n_, ast.Call) and callee_name(n_) == "zip" and any("temporal_dims" in ast.unparse(a_) for a_ in n_.args):
+                site_ = next((x for x in fl.sites if x.node is n_), None)
+                for a_ in n_.args:
+                    if "temporal_dims" in ast.unparse(a_):
+                        continue
+                    cone_ = fl.cone(a_, site_, inline=0)
+                    if norm.contains(cone_, T("$p.upper_bounds")) or norm.contains(cone_, T("$p.temporal_strides")):
+                        n_idx += 1
+                        oki = oki and isinstance(a_, ast.Name) and a_.id in pads
         chk.result(oki and n_idx > 0, "C08.padding", f"{f.key}:indexing", f.where, "the temporal loops index the padded bound / stride sequences",
                    "a temporal-dimension loop reads bounds/strides from an unpadded sequence")
 
